@@ -23,7 +23,7 @@ pub fn run_c03(cx: &Ctx) -> i32 {
     let inj = la_empty();
     let tallies = par::run_workers(32, |_w, claimer| {
         engine::quiet_panics();
-        engine::set_sweep_horizons(300_000, 20_000);
+        engine::set_sweep_horizons(40_000, 5_000);
         let mut t = Tally::new();
         space.for_each(claimer, &mut |node, tag| {
             let facts = ast::facts(node);
